@@ -6,9 +6,14 @@
     sections of Proofs/LabelProofs.v; the models are Model/Label.v, Model/Cli.v;
     [cli_table] is Gen/CliTable.v, regenerated from cli/reconcile.py on every run.
 
-    Process-level clauses of the property (exit status, JSON lines, parsed-back
-    cost = printed cost, all >= any, draw accepts the objects) are not theorems:
-    they are sampled by the correspondence check (harness/props/c12.py). *)
+    The whole command (second half of this file) is the model Model/CliRun.v with the theorems
+    of Proofs/CliRunProofs.v and Proofs/CliExtraProofs.v: exit status / what is written, one
+    JSON object per solution and no object twice, distinct non-empty names in the written
+    trees, parsed-back cost = printed minimum, all >= any (inside the coherent region), a
+    super-reconciliation algorithm without syntenies writes nothing -- for input files with
+    or without a "leaf_object_species" entry (<species>_<id> naming convention).
+    What remains sampled by the correspondence check (harness/props/c12.py): that [cli_run]
+    agrees with the real tool, and that [draw] accepts the written objects. *)
 From Coq Require Import List Bool Arith String Sorted.
 From SR Require Import Model.Label Gen.CliTable Model.Cli Proofs.LabelProofs.
 Import ListNotations.
@@ -314,4 +319,247 @@ Theorem C12_eval_numbering_irrelevant :
 Proof. exact @eval_numbering_irrelevant. Qed.
 Print Assumptions C12_eval_numbering_irrelevant.
 
+(** * Complements (Proofs/CliExtraProofs.v) *)
+From SR Require Import Proofs.CliExtraProofs.
+
+(** ** the naming-convention path: an input file without "leaf_object_species"
+
+    [cli_wf] above demands the entry; [cli_wf_any] is the hypothesis on the input FILE that covers both
+    cases (spelled out by [C12_cli_wf_any_unfold]: when the entry is absent nothing is required of the
+    leaf mapping, because [get_species_mapping] always builds a mapping keyed by distinct existing
+    object leaves with existing species leaves as values, [C12_species_mapping_wf]).  A leaf whose name
+    follows no species is simply left out of the mapping and the solver then raises KeyError
+    ([CliRaise], see the example): the theorems below are about successful runs *)
+
+Theorem C12_cli_wf_any_unfold :
+  forall x : cli_input,
+       cli_wf_any x <->
+       Forall (fun n : string => is_unnamed n = true \/ NewickProofs.ok_word n = true)
+         (preorder (ci_otree x)) /\
+       Forall (fun n : string => is_unnamed n = true \/ NewickProofs.ok_word n = true)
+         (preorder (ci_stree x)) /\
+       NoDup (filter (named is_unnamed) (preorder (ci_otree x))) /\
+       NoDup (filter (named is_unnamed) (preorder (ci_stree x))) /\
+       (forall d : Serial.dict string, ci_leafmap x = Some d -> NoDup (map fst d)) /\
+       (forall d : Serial.dict (list string),
+        ci_leafsyn x = Some d ->
+        NoDup (map fst d) /\ Forall (fun kv : string * list string => snd kv <> []) d).
+Proof. exact @cli_wf_any_unfold. Qed.
+Print Assumptions C12_cli_wf_any_unfold.
+
+Theorem C12_cli_wf_any_of_wf :
+  forall x : cli_input, cli_wf x -> cli_wf_any x.
+Proof. exact @cli_wf_any_of_wf. Qed.
+Print Assumptions C12_cli_wf_any_of_wf.
+
+Theorem C12_cli_wf_any_convention :
+  forall x : cli_input,
+       Forall (fun n : string => is_unnamed n = true \/ NewickProofs.ok_word n = true)
+         (preorder (ci_otree x)) ->
+       Forall (fun n : string => is_unnamed n = true \/ NewickProofs.ok_word n = true)
+         (preorder (ci_stree x)) ->
+       NoDup (filter (named is_unnamed) (preorder (ci_otree x))) ->
+       NoDup (filter (named is_unnamed) (preorder (ci_stree x))) ->
+       ci_leafmap x = None ->
+       (forall d : Serial.dict (list string),
+        ci_leafsyn x = Some d ->
+        NoDup (map fst d) /\ Forall (fun kv : string * list string => snd kv <> []) d) ->
+       cli_wf_any x.
+Proof. exact @cli_wf_any_convention. Qed.
+Print Assumptions C12_cli_wf_any_convention.
+
+Theorem C12_species_mapping_wf :
+  forall O S : Newick.tree, SerialProofs.wf_tmap O S (species_mapping O S).
+Proof. exact @species_mapping_wf. Qed.
+Print Assumptions C12_species_mapping_wf.
+
+Theorem C12_species_mapping_spec :
+  forall (O S : Newick.tree) (p q : Serial.path),
+       In (p, q) (species_mapping O S) ->
+       In p (leaf_paths O) /\
+       (exists (n : string) (i : nat),
+          Serial.name_at O p = Some n /\
+          species_prefix_mapping
+            (map
+               (fun p0 : Serial.path =>
+                match Serial.name_at S p0 with
+                | Some n0 => n0
+                | None => ""
+                end) (leaf_paths S)) n = Some i /\ nth_error (leaf_paths S) i = Some q).
+Proof. exact @species_mapping_spec. Qed.
+Print Assumptions C12_species_mapping_spec.
+
+Theorem C12_read_input_wf_any :
+  forall (x : cli_input) (inp : Serial.any_input),
+       cli_wf_any x -> read_input x = Some inp -> cli_input_wf inp.
+Proof. exact @read_input_wf_any. Qed.
+Print Assumptions C12_read_input_wf_any.
+
+Theorem C12_read_input_wf_convention :
+  forall (x : cli_input) (inp : Serial.any_input),
+       Forall (fun n : string => is_unnamed n = true \/ NewickProofs.ok_word n = true)
+         (preorder (ci_otree x)) ->
+       Forall (fun n : string => is_unnamed n = true \/ NewickProofs.ok_word n = true)
+         (preorder (ci_stree x)) ->
+       NoDup (filter (named is_unnamed) (preorder (ci_otree x))) ->
+       NoDup (filter (named is_unnamed) (preorder (ci_stree x))) ->
+       ci_leafmap x = None ->
+       (forall d : Serial.dict (list string),
+        ci_leafsyn x = Some d ->
+        NoDup (map fst d) /\ Forall (fun kv : string * list string => snd kv <> []) d) ->
+       read_input x = Some inp ->
+       cli_input_wf inp /\
+       Serial.leafmap (Serial.base_of inp) =
+       species_mapping (tree_of (ci_otree x)) (tree_of (ci_stree x)).
+Proof. exact @read_input_wf_convention. Qed.
+Print Assumptions C12_read_input_wf_convention.
+
+Theorem C12_cli_objects_parse_back_wf_any :
+  forall (x : cli_input) (warned : bool) (m : Ext.ext) (objs : list out_obj),
+       cli_wf_any x ->
+       ThlProofs.nn (Recon.c_hgt (ci_costs x)) ->
+       cli_run x = CliOk warned m objs ->
+       exists inp : Serial.any_input,
+         read_input x = Some inp /\
+         (forall d : out_obj,
+          In d objs ->
+          exists r : Serial.routput + Serial.soutput,
+            parse_back d = Some r /\
+            result_input r = Serial.Plain (Serial.base_of inp) /\
+            eval_result (own_num r) r = Some m).
+Proof. exact @cli_objects_parse_back_wf_any. Qed.
+Print Assumptions C12_cli_objects_parse_back_wf_any.
+
+Theorem C12_cli_all_superset_any_wf_any :
+  forall (x : cli_input) (wa : bool) (ma : Ext.ext) (oa : list out_obj) 
+         (wl : bool) (ml : Ext.ext) (ol : list out_obj),
+       cli_wf_any x ->
+       ThlProofs.nn (Recon.c_hgt (ci_costs x)) ->
+       cli_region (ci_algo x) (ci_costs x) ->
+       cli_run (set_policy x Entry.RANY) = CliOk wa ma oa ->
+       cli_run (set_policy x Entry.RALL) = CliOk wl ml ol -> incl oa ol /\ ma = ml.
+Proof. exact @cli_all_superset_any_wf_any. Qed.
+Print Assumptions C12_cli_all_superset_any_wf_any.
+
+
+(** ** the names one reads in the two trees of every written object: pairwise distinct, non-empty
+    words over [A-Za-z0-9_], the given names untouched and every unnamed node called O<k> / S<k>
+    ([good_name n] is [n <> "" /\ ok_word n = true]; composition of [C12_cli_names],
+    [C12_written_tree_names] and the [labelled] facts) *)
+
+Theorem C12_cli_written_names_distinct :
+  forall (x : cli_input) (warned : bool) (m : Ext.ext) (objs : list out_obj),
+       cli_wf_any x ->
+       cli_run x = CliOk warned m objs ->
+       forall d : out_obj,
+       In d objs ->
+       exists uo us : Newick.tree,
+         Newick.parse_tree (Serial.d_otree (obj_base d)) = Some uo /\
+         Newick.parse_tree (Serial.d_stree (obj_base d)) = Some us /\
+         NoDup (Serial.names uo) /\
+         NoDup (Serial.names us) /\
+         Forall good_name (Serial.names uo) /\
+         Forall good_name (Serial.names us) /\
+         Forall2
+           (fun a b : string => if is_unnamed a then exists k : nat, b = gen_name "O" k else b = a)
+           (preorder (ci_otree x)) (Serial.names uo) /\
+         Forall2
+           (fun a b : string => if is_unnamed a then exists k : nat, b = gen_name "S" k else b = a)
+           (preorder (ci_stree x)) (Serial.names us).
+Proof. exact @cli_written_names_distinct. Qed.
+Print Assumptions C12_cli_written_names_distinct.
+
+Theorem C12_cli_written_names_distinct_wf :
+  forall (x : cli_input) (warned : bool) (m : Ext.ext) (objs : list out_obj),
+       cli_wf x ->
+       cli_run x = CliOk warned m objs ->
+       forall d : out_obj,
+       In d objs ->
+       exists uo us : Newick.tree,
+         Newick.parse_tree (Serial.d_otree (obj_base d)) = Some uo /\
+         Newick.parse_tree (Serial.d_stree (obj_base d)) = Some us /\
+         NoDup (Serial.names uo) /\
+         NoDup (Serial.names us) /\
+         Forall good_name (Serial.names uo) /\
+         Forall good_name (Serial.names us) /\
+         Forall2
+           (fun a b : string => if is_unnamed a then exists k : nat, b = gen_name "O" k else b = a)
+           (preorder (ci_otree x)) (Serial.names uo) /\
+         Forall2
+           (fun a b : string => if is_unnamed a then exists k : nat, b = gen_name "S" k else b = a)
+           (preorder (ci_stree x)) (Serial.names us).
+Proof. exact @cli_written_names_distinct_wf. Qed.
+Print Assumptions C12_cli_written_names_distinct_wf.
+
+
+(** ** one JSON object per solution: the written objects are the [to_dict()]s of the solver's
+    pairwise distinct results, one each, and no object is written twice (an unordered result is
+    written with sorted syntenies; the unordered solver never returns two results that differ only in
+    the order in which a synteny is listed) *)
+
+Theorem C12_cli_objects_count :
+  forall (x : cli_input) (warned : bool) (m : Ext.ext) (objs : list out_obj),
+       cli_run x = CliOk warned m objs ->
+       exists
+         (inp : Serial.any_input) (St : Recon.stree) (ls : option (list (npath * list Recon.fam))) 
+       (Ot : Recon.otree) (sols : list solution),
+         read_input x = Some inp /\
+         to_stree (Serial.stree (Serial.base_of inp)) = Some St /\
+         to_otree (Serial.otree (Serial.base_of inp)) (Serial.leafmap (Serial.base_of inp)) ls =
+         Some Ot /\
+         run_algo (ci_algo x) (ci_policy x) (ci_costs x) St Ot = Some sols /\
+         NoDup sols /\
+         Serial.mapM (write_solution inp (input_table inp)) sols = Some objs /\
+         Datatypes.length objs = Datatypes.length sols.
+Proof. exact @cli_objects_count. Qed.
+Print Assumptions C12_cli_objects_count.
+
+Theorem C12_cli_objects_nodup :
+  forall (x : cli_input) (inp : Serial.any_input) (warned : bool) 
+         (m : Ext.ext) (objs : list out_obj),
+       read_input x = Some inp ->
+       cli_input_wf inp ->
+       ThlProofs.nn (Recon.c_hgt (ci_costs x)) -> cli_run x = CliOk warned m objs -> NoDup objs.
+Proof. exact @cli_objects_nodup. Qed.
+Print Assumptions C12_cli_objects_nodup.
+
+Theorem C12_cli_objects_nodup_wf_any :
+  forall (x : cli_input) (warned : bool) (m : Ext.ext) (objs : list out_obj),
+       cli_wf_any x ->
+       ThlProofs.nn (Recon.c_hgt (ci_costs x)) -> cli_run x = CliOk warned m objs -> NoDup objs.
+Proof. exact @cli_objects_nodup_wf_any. Qed.
+Print Assumptions C12_cli_objects_nodup_wf_any.
+
+(** ** non-vacuity *)
+
+(* explicit leaf mapping: [cli_wf], the region, six objects under 'all', one under 'any', Error *)
 Example C12_cli_example := cli_example.
+
+(* the same input file WITHOUT "leaf_object_species" ([ci_leafmap = None]): [cli_wf_any] holds and
+   [cli_wf] does not, [read_input] builds the same object and the command writes the same six
+   pairwise distinct objects; a leaf that follows no species makes the run raise *)
+From Coq Require Import ZArith NArith.
+Example C12_cli_example_convention :
+  let x := mkCli "superdtl" Entry.RALL ex_costs
+             (NT "" [NT "O1" [NT "x_1" []; NT "y_1" []]; NT "" [NT "x_2" []; NT "z_1" []]])
+             (NT "" [NT "X" []; NT "NoName" [NT "Y" []; NT "Z" []]])
+             None
+             (Some [("x_1", ["a"; "b"; "c"]); ("y_1", ["a"; "c"]); ("x_2", ["b"; "c"]); ("z_1", ["a"; "b"])]) in
+  ci_leafmap x = None /\ cli_wf_any x /\ ~ cli_wf x /\
+  ThlProofs.nn (Recon.c_hgt (ci_costs x)) /\ cli_region (ci_algo x) (ci_costs x) /\
+  (exists inp, read_input x = Some inp /\ cli_input_wf inp /\
+     Serial.leafmap (Serial.base_of inp) = [([0; 0], [0]); ([0; 1], [1; 0]); ([1; 0], [0]); ([1; 1], [1; 1])]) /\
+  read_input x = read_input (ex_input "superdtl" Entry.RALL) /\
+  cli_run x = cli_run (ex_input "superdtl" Entry.RALL) /\
+  (exists objs, cli_run x = CliOk false (Ext.Fin 4%Z) objs /\ List.length objs = 6 /\ NoDup objs) /\
+  (exists d, cli_run (set_policy x Entry.RANY) = CliOk false (Ext.Fin 4%Z) [d]) /\
+  cli_run (mkCli "lca" Entry.RALL ex_costs (NT "" [NT "x_1" []; NT "w_1" []]) (ci_stree x) None None) = CliRaise.
+Proof. exact cli_example_convention. Qed.
+
+(* two injective numberings of the families a, b, c: the hypotheses of
+   [C12_eval_numbering_irrelevant] *)
+Example C12_example_numberings :
+  num_inj (fam_num ["a"; "b"; "c"]) /\ num_inj (fam_num ["c"; "a"; "b"]) /\
+  fam_num ["a"; "b"; "c"] "c" = Some 2%N /\ fam_num ["c"; "a"; "b"] "c" = Some 0%N /\
+  fam_num ["a"; "b"; "c"] "d" = None.
+Proof. repeat split; apply fam_num_inj. Qed.
